@@ -157,6 +157,9 @@ type Server struct {
 	ChooseServerNonce func() []byte
 	ChoosePQ          func() (p, q uint64)
 	ChooseA           func() *big.Int
+	// ServerTime, if set, supplies server_time of server_DH_inner_data (a server's clock is its own: the exchange
+	// does not depend on it and a conformant server may be minutes or years away from the client's clock)
+	ServerTime func() int32
 	G                 int32
 	InitialSalt       func(derived int64) int64 // nil: the derived salt
 	// ClockOffset (seconds, atomic) is added to the server's clock where message ids are made: a server whose
@@ -643,6 +646,9 @@ func (c *Conn) handlePlain(msgID int64, body []byte) {
 		h.ga = ga.Bytes()
 		f := &HSFields{Stage: "dh_params", Nonce: h.nonce, ServerNonce: h.serverNonce, Constructor: 0xd0e8075c,
 			InnerNonce: h.nonce, InnerServerNonce: h.serverNonce, G: s.G, Prime: mtp.DHPrime.Bytes(), GA: h.ga, ServerTime: int32(time.Now().Unix()), AnswerPad: -1}
+		if s.ServerTime != nil {
+			f.ServerTime = s.ServerTime()
+		}
 		if s.Tamper != nil {
 			s.Tamper(f)
 		}
